@@ -265,39 +265,76 @@ Init ==
 
 Dist(fs, anc) == Cardinality({p \in PathSet : fs[p] # anc.files[p]})
 
+\* ---- emission: the expected abstract state after the transition that ends history h ----
+\* (computed inside the action from explicit, unprimed values: TLC does not cache LET / argument values while it
+\*  evaluates primed expressions, an action constraint over FullStep' was 50x slower)
+FullStepOf(h, fs, is, d, anc) ==
+  LET last == h[Len(h)]
+      ideal == Ideal(fs, is)
+      removal == last.op \in {"unset", "remove"} IN
+  [obs |-> Obs(d, fs, is), sizes |-> Sizes(d, fs, is), ideal_sizes |-> Sizes(ideal, fs, is),
+   dev |-> {k \in Components : Get(d, k) # Get(ideal, k)},
+   order_sensitive |-> OrderSensitive(fs), files |-> fs, ids |-> is,
+   same_as |-> IF last.op = "update" /\ anc.ok /\ anc.files = fs THEN anc.at ELSE 0 - 1,
+   fresh |-> last.op # "update",
+   independent |-> IF removal THEN Independent(fs, last.p, last.c) ELSE TRUE,
+   absent |-> IF removal THEN <<last.p>> ELSE <<>>]
+SelOf(last, fs, anc) ==
+  CASE EmitSel = "same" -> last.op = "update" /\ anc.ok /\ anc.files = fs
+    [] EmitSel = "reindex" -> last.op = "reindex"
+    [] EmitSel = "removal" -> last.op \in {"unset", "remove"}
+    [] OTHER -> TRUE
+\* The reduction merges states, so re-submissions that the model predicts to change nothing are self-loops /
+\* edges to an already seen state: what has to be covered is every TRANSITION of the reduced graph.  Every action
+\* therefore prints (as its last conjunct, evaluated for every generated successor, new or not) the history up to
+\* and including the transition and the expected state after it.  Initial states are printed by the invariant Emit.
+EmitT(h, fs, is, d, anc) ==
+  SelOf(h[Len(h)], fs, anc) => PrintT(<<"S", ToJson([h |-> h, step |-> FullStepOf(h, fs, is, d, anc)])>>)
+
 Update(p, c) ==
   /\ "update" \in Ops /\ n < MaxSteps
   /\ LET fs == [files EXCEPT ![p] = c]
          isNew == ids[p] = 0
-         is == IF isNew THEN [ids EXCEPT ![p] = nextId] ELSE ids IN
+         is == IF isNew THEN [ids EXCEPT ![p] = nextId] ELSE ids
+         d == Add(Remove(db, is[p]), is, is[p], c)
+         anc == IF isNew THEN [anchor EXCEPT !.ok = FALSE] ELSE anchor
+         h == Append(hist, H("update", p, c)) IN
      /\ WellFormed(fs)
      /\ ~anchor.ok \/ Dist(fs, anchor) <= EditDist
      /\ files' = fs /\ ids' = is /\ nextId' = IF isNew THEN nextId + 1 ELSE nextId
-     /\ db' = Add(Remove(db, is[p]), is, is[p], c) /\ n' = n + 1
-     /\ anchor' = IF isNew THEN [anchor EXCEPT !.ok = FALSE] ELSE anchor
-     /\ hist' = Append(hist, H("update", p, c))
+     /\ db' = d /\ n' = n + 1 /\ anchor' = anc /\ hist' = h
+     /\ EmitT(h, fs, is, d, anc)
 
 Unset(p) ==
   /\ "unset" \in Ops /\ n < MaxSteps /\ files[p] # None
-  /\ files' = [files EXCEPT ![p] = None] /\ db' = Remove(db, ids[p]) /\ n' = n + 1
-  /\ UNCHANGED <<ids, nextId>>
-  /\ anchor' = [anchor EXCEPT !.ok = FALSE]
-  /\ hist' = Append(hist, H("unset", p, files[p]))
+  /\ LET fs == [files EXCEPT ![p] = None]
+         d == Remove(db, ids[p])
+         anc == [anchor EXCEPT !.ok = FALSE]
+         h == Append(hist, H("unset", p, files[p])) IN
+     /\ files' = fs /\ db' = d /\ n' = n + 1 /\ UNCHANGED <<ids, nextId>>
+     /\ anchor' = anc /\ hist' = h
+     /\ EmitT(h, fs, ids, d, anc)
 
 RemoveFile(p) ==
   /\ "remove" \in Ops /\ n < MaxSteps /\ files[p] # None
-  /\ files' = [files EXCEPT ![p] = None] /\ ids' = [ids EXCEPT ![p] = 0]
-  /\ db' = Remove(db, ids[p]) /\ n' = n + 1 /\ UNCHANGED nextId
-  /\ anchor' = [anchor EXCEPT !.ok = FALSE]
-  /\ hist' = Append(hist, H("remove", p, files[p]))
+  /\ LET fs == [files EXCEPT ![p] = None]
+         is == [ids EXCEPT ![p] = 0]
+         d == Remove(db, ids[p])
+         anc == [anchor EXCEPT !.ok = FALSE]
+         h == Append(hist, H("remove", p, files[p])) IN
+     /\ files' = fs /\ ids' = is /\ db' = d /\ n' = n + 1 /\ UNCHANGED nextId
+     /\ anchor' = anc /\ hist' = h
+     /\ EmitT(h, fs, is, d, anc)
 
 Reindex ==
   /\ "reindex" \in Ops /\ n < MaxSteps /\ Live(files) # {}
   /\ hist[Len(hist)].op \notin {"reindex", "load", "batch"}
-  /\ LET idset == IdOf(files, ids) IN
-       db' = AddSeq(RegisterAll(EmptyDb, idset), files, ids, SetToSeq(idset))
-  /\ n' = n + 1 /\ anchor' = [ok |-> TRUE, files |-> files, at |-> n + 1] /\ UNCHANGED <<files, ids, nextId>>
-  /\ hist' = Append(hist, H("reindex", "", ""))
+  /\ LET idset == IdOf(files, ids)
+         d == AddSeq(RegisterAll(EmptyDb, idset), files, ids, SetToSeq(idset))
+         anc == [ok |-> TRUE, files |-> files, at |-> n + 1]
+         h == Append(hist, H("reindex", "", "")) IN
+     /\ db' = d /\ n' = n + 1 /\ anchor' = anc /\ UNCHANGED <<files, ids, nextId>> /\ hist' = h
+     /\ EmitT(h, files, ids, d, anc)
 
 Next == \/ \E p \in PathSet, c \in Contents : Update(p, c)
         \/ \E p \in PathSet : Unset(p) \/ RemoveFile(p)
@@ -329,26 +366,8 @@ C08_Model == (anchor.ok /\ files = anchor.files) => (DevNow = {} \/ (KF_Slot /\ 
 Confluent == (Batch /\ n = 0 /\ ~OrderSensitive(files)) => DevNow = {}
 ConfluentStrict == (Batch /\ n = 0) => DevNow = {}       \* fails exactly on OrderSensitive workspaces
 
-\* ------------------------------------------------------------------------------------------------
-\* emission: every distinct state prints its compact history and the expected abstract state after its last step
-FullStep ==
-  LET removal == Last.op \in {"unset", "remove"} IN
-  [obs |-> Obs(db, files, ids), sizes |-> Sizes(db, files, ids), ideal_sizes |-> Sizes(IdealNow, files, ids),
-   dev |-> DevNow, order_sensitive |-> OrderSensitive(files), files |-> files, ids |-> ids,
-   same_as |-> IF Last.op = "update" /\ anchor.ok /\ anchor.files = files THEN anchor.at ELSE 0 - 1,
-   fresh |-> Last.op # "update",
-   independent |-> IF removal THEN Independent(files, Last.p, Last.c) ELSE TRUE,
-   absent |-> IF removal THEN <<Last.p>> ELSE <<>>]
-\* The reduction merges states, so re-submissions that the model predicts to change nothing are self-loops /
-\* edges to an already seen state: what has to be covered is every TRANSITION of the reduced graph.  TLC evaluates
-\* an action constraint on every generated successor (new or not): it prints the history up to and including
-\* that transition and the expected state after it.  Initial states are printed by the invariant Emit.
-Sel == CASE EmitSel = "same" -> Last.op = "update" /\ anchor.ok /\ anchor.files = files
-         [] EmitSel = "reindex" -> Last.op = "reindex"
-         [] EmitSel = "removal" -> Last.op \in {"unset", "remove"}
-         [] OTHER -> TRUE
-EmitEdge == Sel' => PrintT(<<"S", ToJson([h |-> hist', step |-> FullStep'])>>)
-Emit == n = 0 => PrintT(<<"S", ToJson([h |-> hist, step |-> FullStep])>>)
+\* initial states (no incoming transition) are printed by this invariant
+Emit == n = 0 => PrintT(<<"S", ToJson([h |-> hist, step |-> FullStepOf(hist, files, ids, db, anchor)])>>)
 Texts == PrintT(<<"TEXTS", ToJson([c \in AllContents |-> Text(c)])>>)
 ASSUME Texts
 =============================================================================
